@@ -2,6 +2,8 @@
 EXTENDS PTFasta, Json
 MCLines == { [hdr |-> TRUE,  text |-> ">sp|P1|first protein", stripped |-> ">sp|P1|first protein"],
              [hdr |-> TRUE,  text |-> ">",                    stripped |-> ">"],
+             [hdr |-> TRUE,  text |-> ">P2 variant A->V >x ",  stripped |-> ">P2 variant A->V >x"],     \* '>' inside a header is text
+             [hdr |-> FALSE, text |-> " >indented",           stripped |-> " >indented"],             \* only a leading '>' starts a record
              [hdr |-> FALSE, text |-> "MKV LA",               stripped |-> "MKV LA"],
              [hdr |-> FALSE, text |-> "GGX*AA  ",             stripped |-> "GGX*AA"],
              [hdr |-> FALSE, text |-> "",                     stripped |-> ""] }
